@@ -51,7 +51,7 @@ fn gen_bound(rng: &mut Rng, hi: usize) -> Bound<TopologicalPosition> {
 }
 
 macro_rules! vertical {
-    ($run:ident, $view:ident, $dump:ident, $G:ident, $stable:expr, $mk:ident) => {
+    ($run:ident, $view:ident, $dump:ident, $G:ident, $stable:expr, $mk:ident, $free:ident) => {
         /// the inner graph as a `graph` line, all ids concrete; `lab=` maps index -> node weight
         fn $view<Ix: IndexType>(g: &$G<usize, i64, Ix>) -> String {
             let nodes: Vec<NodeIndex<Ix>> = g.node_indices().collect();
@@ -182,23 +182,25 @@ macro_rules! vertical {
                         let g: G<Ix> = $mk::<Ix>(rng, &ag, &no, &eo);
                         ctx.line(&$view(&g), "ok");
                         let via = if rng.chance(50) { "tfg" } else { "tf" };
+                        // what the graph line cannot show of a StableGraph: the order of its free lists
+                        let from_req = format!("from {}{}", via, $free(&g));
                         let r = catch(move || if via == "tfg" { Acyclic::try_from_graph(g) } else { Acyclic::try_from(g) });
                         let r = match r {
                             Some(r) => r,
                             None => {
-                                ctx.line(&format!("from {}", via), "panic");
+                                ctx.line(&from_req, "panic");
                                 continue;
                             }
                         };
                         match r {
                             Ok(a) => {
-                                ctx.line(&format!("from {}", via), "ok");
+                                ctx.line(&from_req, "ok");
                                 acy = a;
                                 next_label = ag.n;
                                 break;
                             }
                             Err(c) => {
-                                ctx.line(&format!("from {}", via), &format!("err cycle {}", c.node_id().index()));
+                                ctx.line(&from_req, &format!("err cycle {}", c.node_id().index()));
                             }
                         }
                     }
@@ -345,8 +347,41 @@ fn mk_stable<Ix: IndexType>(rng: &mut Rng, ag: &AG, no: &[usize], eo: &[usize]) 
     enc_stable::<Directed, Ix>(rng, ag, no, eo, holes).g
 }
 
-vertical!(run_g, view_g, dump_g, DiGraph, false, mk_graph);
-vertical!(run_s, view_s, dump_s, StableDiGraph, true, mk_stable);
+fn free_graph<Ix: IndexType>(_g: &DiGraph<usize, i64, Ix>) -> String {
+    String::new()
+}
+
+/// The free lists of a StableGraph, observed through the public API on a clone: `add_node` / `add_edge`
+/// hand out the vacant slots in free-list order and then fresh slots `len, len + 1, …`.  Reported as
+/// ` fn=<free node slots> fe=<free edge slots> nl=<node slots> el=<edge slots>` (a trailing run of
+/// vacant slots that is reused in ascending order is indistinguishable from fresh slots, and
+/// behaves the same).
+fn free_stable<Ix: IndexType>(g: &StableDiGraph<usize, i64, Ix>) -> String {
+    fn split(seq: &[usize], bound: usize) -> (Vec<usize>, usize) {
+        // the first k such that seq[k..] is consecutive, above everything before it and >= bound
+        for k in 0..seq.len() {
+            let tail_ok = seq[k..].windows(2).all(|w| w[1] == w[0] + 1);
+            let above = seq[..k].iter().all(|&x| x < seq[k]);
+            if tail_ok && above && seq[k] >= bound {
+                return (seq[..k].to_vec(), seq[k]);
+            }
+        }
+        (seq.to_vec(), usize::MAX)
+    }
+    let mut c = g.clone();
+    let nb = g.node_bound();
+    let eb = g.edge_indices().map(|e| e.index() + 1).max().unwrap_or(0);
+    let vac_n = 64usize;
+    let nseq: Vec<usize> = (0..vac_n).map(|_| c.add_node(usize::MAX).index()).collect();
+    let x = NodeIndex::<Ix>::new(nseq[0]);
+    let eseq: Vec<usize> = (0..vac_n).map(|_| c.add_edge(x, x, 0).index()).collect();
+    let (fnl, nl) = split(&nseq, nb);
+    let (fel, el) = split(&eseq, eb);
+    format!(" fn={} fe={} nl={} el={}", list(fnl.iter()), list(fel.iter()), nl, el)
+}
+
+vertical!(run_g, view_g, dump_g, DiGraph, false, mk_graph, free_graph);
+vertical!(run_s, view_s, dump_s, StableDiGraph, true, mk_stable, free_stable);
 
 pub fn run(ctx: &mut Ctx, case: u64) {
     let mut rng = Rng::for_case(ctx.seed, "C14", case);
